@@ -42,11 +42,35 @@ fn stuck_operator_terms() -> Vec<(String, M)> {
     out
 }
 
+// A variable applied to two and three arguments drawn from a pool of convertible but differently
+// written integers: conversion has to compare every argument of a neutral spine up to reduction, not
+// only the last one.
+fn neutral_spine_terms() -> Vec<(String, M)> {
+    let g = crate::model::grammar::Grammar::load();
+    let pool = ["2", "(1 + 1)", "(z : int = 2; z)", "(if true then 2 else 3)", "3"];
+    let mut texts = vec![];
+    for a in pool {
+        for b in pool {
+            texts.push(format!("(r : int -> int -> int) => r {a} {b}"));
+            for c in pool {
+                texts.push(format!("(r : int -> int -> int -> int) => r {a} {b} {c}"));
+            }
+        }
+    }
+    texts
+        .into_iter()
+        .filter_map(|t| surface::parse_text(&g, &t).and_then(|s| surface::resolve(&s, &[]).ok()).map(|m| (t, m)))
+        .collect()
+}
+
 pub fn pair_sweeps(tier: Tier) -> Vec<Sweep> {
     let progs = sem::typed_programs(sem::typed_size(tier));
     let per_type = tier.pick(420, 1000);
     let mut out = vec![];
-    let mut groups: Vec<(String, Vec<(String, M)>)> = vec![("terms whose operators are stuck on variables".to_owned(), stuck_operator_terms())];
+    let mut groups: Vec<(String, Vec<(String, M)>)> = vec![
+        ("terms whose operators are stuck on variables".to_owned(), stuck_operator_terms()),
+        ("a variable applied to convertible, differently written arguments".to_owned(), neutral_spine_terms()),
+    ];
     for goal in crate::enumerate::typed::goals() {
         let terms: Vec<(String, M)> = progs
             .iter()
